@@ -22,6 +22,14 @@ Fixpoint set_nth (n : nat) (v : Z) (l : list Z) : list Z :=
 (* tokens of the opaque operators the generator uses *)
 Definition T_NOP := 1%N. Definition T_ADD := 2%N. Definition T_LOG := 3%N. Definition T_GGET0 := 4%N.
 Definition T_GSET0 := 5%N. Definition T_EQZ := 6%N. Definition T_SUB := 7%N.
+(* memory 0 is modelled as a window of i32 cells kept behind global 0 in [globals]: cell k (address 4k) is
+   [globals] position 1+k; an access outside the window or unaligned is outside the model (OUnsupported).
+   T_CALL2 is the call of the helper function `$acc : i32 -> ()`
+   (global.get 0; local.get 0; i32.add; global.set 0). *)
+Definition T_LOAD := 9%N. Definition T_STORE := 10%N. Definition T_CALL2 := 11%N.
+Definition cell_of (a : Z) (gs : list Z) : option nat :=
+  if (Z.eqb (Z.modulo a 4) 0 && Z.leb 0 a && Z.ltb (Z.div a 4) (Z.of_nat (length gs) - 1))%bool
+  then Some (S (Z.to_nat (Z.div a 4))) else None.
 
 Definition exec_plain (o : fop) (c : cfg) : outcome :=
   match o with
@@ -48,6 +56,19 @@ Definition exec_plain (o : fop) (c : cfg) : outcome :=
       else if N.eqb t T_GGET0 then match globals c with g :: _ => ONormal (with_stack c (g :: stack c)) | [] => OTrap c end
       else if N.eqb t T_GSET0 then match stack c, globals c with
                                    | a :: s, _ :: gs => ONormal (mkC (locals c) (a :: gs) s (trace c))
+                                   | _, _ => OTrap c end
+      else if N.eqb t T_LOAD then match stack c with
+                                  | a :: s => match cell_of a (globals c) with
+                                              | Some k => ONormal (with_stack c (nth k (globals c) 0%Z :: s))
+                                              | None => OUnsupported end
+                                  | [] => OTrap c end
+      else if N.eqb t T_STORE then match stack c with
+                                   | v :: a :: s => match cell_of a (globals c) with
+                                                    | Some k => ONormal (mkC (locals c) (set_nth k v (globals c)) s (trace c))
+                                                    | None => OUnsupported end
+                                   | _ => OTrap c end
+      else if N.eqb t T_CALL2 then match stack c, globals c with
+                                   | a :: s, g :: gs => ONormal (mkC (locals c) (wrap (g + a) :: gs) s (trace c))
                                    | _, _ => OTrap c end
       else OUnsupported
   | _ => OUnsupported
